@@ -2,12 +2,17 @@ module seehuhn.de/go/sfnt/verifharness
 
 go 1.23.2
 
-require seehuhn.de/go/sfnt v0.0.0
+require (
+	golang.org/x/image v0.18.0
+	golang.org/x/text v0.16.0
+	seehuhn.de/go/geom v0.0.0-20250115091222-3cab61c7096a
+	seehuhn.de/go/postscript v0.5.1-0.20250316102127-8863e3a3d4c4
+	seehuhn.de/go/sfnt v0.0.0
+)
 
 require (
 	golang.org/x/exp v0.0.0-20240409090435-93d18d7e34b8 // indirect
 	seehuhn.de/go/dijkstra v0.9.3 // indirect
-	seehuhn.de/go/postscript v0.5.1-0.20250316102127-8863e3a3d4c4 // indirect
 )
 
 replace seehuhn.de/go/sfnt => /repo
